@@ -133,12 +133,12 @@ class World:
             raise unexpected_exceptions()[UNEXPECTED_EXC]("unexpected %s" % key)
         if key == "nn" and self.nn_null:
             return None
-        if key == "sc":
+        if key in ("sc", "msc"):
             return "boom"
         return root[key]
 
     def resolver(self, key):
-        kind = self.kinds.get(key, VALUE if key == "sc" else PLAIN)
+        kind = self.kinds.get(key, VALUE if key in ("sc", "msc") else PLAIN)
         if kind == PLAIN and not (key == "nn" and self.nn_null):
             return None
         if SHARED_RESOLVER:
@@ -199,7 +199,8 @@ class World:
             Field("o", obj, resolver=self.resolver("o")), Field("l", ListType(obj), resolver=self.resolver("l")),
             Field("n", node, resolver=self.resolver("n")),
         ])
-        mfields = [Field("m1", obj, resolver=self.resolver("m1")), Field("m2", obj, resolver=self.resolver("m2")), Field("m3", Int, resolver=self.resolver("m3"))]
+        mfields = [Field("m1", obj, resolver=self.resolver("m1")), Field("m2", obj, resolver=self.resolver("m2")), Field("m3", Int, resolver=self.resolver("m3")),
+                   Field("msc", odd, resolver=self.resolver("msc"))]      # resolves fine, fails while the value is COMPLETED (the scalar's serialize raises ResolverError)
         if SAME_ROOT:
             # schema { query: Root mutation: Root }: one object type serves as both roots
             root = ObjectType("Query", list(q.fields) + mfields)
